@@ -16,6 +16,8 @@ of a dataclass of the package are its declared field names, `getattr(x, "name")`
 A tuple / list of literal labels bound once at class level or module level and never re-bound / changed anywhere in the package (`_class_constant`,
 `_module_constant`) is that display wherever it is read; `dataclasses.replace(obj, **changes)` on an instance of the method's own dataclass is the
 constructor call with the fields not named taken from obj; a class-level alias `__rmul__ = __mul__` is that method (`_builder`).
+`functools.partial(f, a, k=v)(b)` -- written directly or through a single-assignment local that holds the partial object -- is `f(a, b, k=v)` when f
+and the frozen arguments are stable paths / literals (`_partial_call`).
 """
 from __future__ import annotations
 
@@ -579,7 +581,66 @@ class _WriteOut(ast.NodeTransformer):
             else:
                 kws.append(k)
         x.args, x.keywords = args, kws
-        return self._replace_call(x) or x
+        return self._replace_call(x) or self._partial_call(x) or x
+
+    def _partial_of(self, e):
+        """(callee, positional arguments, keywords) when e is `functools.partial(callee, ...)` whose callee and frozen arguments are stable: the
+        callee an attribute path of names (`poly.integrate`), the arguments numbers / strings / attribute paths / tuples of those, every name read
+        a parameter or local that is bound at most once and outside any loop (so that it denotes at the call what it denoted when the partial was
+        built -- partial evaluates them once, the written-out call evaluates them again)"""
+        imports = self.S.modules[self.fi.module].imports
+        if not (isinstance(e, ast.Call) and e.args and not any(isinstance(a, ast.Starred) for a in e.args) and all(k.arg is not None for k in e.keywords)):
+            return None
+        f = e.func
+        if not ((isinstance(f, ast.Name) and imports.get(f.id) == "functools:partial" and self.constant_free(f.id))
+                or (isinstance(f, ast.Attribute) and f.attr == "partial" and isinstance(f.value, ast.Name) and imports.get(f.value.id) == "functools"
+                    and self.constant_free(f.value.id))):
+            return None
+        a = self.orig.args
+        params = {p.arg for p in a.posonlyargs + a.args + a.kwonlyargs}
+        stores: dict = {}
+        for y in ast.walk(self.orig):
+            if isinstance(y, ast.Name) and isinstance(y.ctx, (ast.Store, ast.Del)):
+                stores[y.id] = stores.get(y.id, 0) + 1
+            elif isinstance(y, (ast.Global, ast.Nonlocal)):
+                for nm in y.names:
+                    stores[nm] = stores.get(nm, 0) + 2
+
+        def name_ok(nm: str) -> bool:
+            return (nm in params and not stores.get(nm)) or (nm in self.defs and stores.get(nm) == 1) or (nm not in params and not stores.get(nm) and self.constant_free(nm))
+
+        def path(v) -> bool:
+            return (isinstance(v, ast.Name) and name_ok(v.id)) or (isinstance(v, ast.Attribute) and path(v.value))
+
+        def value(v) -> bool:
+            if isinstance(v, ast.Constant):
+                return isinstance(v.value, (int, float, str, bool, type(None)))
+            if isinstance(v, ast.Tuple):
+                return all(value(q) for q in v.elts)
+            if isinstance(v, ast.UnaryOp) and isinstance(v.op, ast.USub):
+                return isinstance(v.operand, ast.Constant) and isinstance(v.operand.value, (int, float))
+            return path(v)
+
+        callee = e.args[0]
+        if not (isinstance(callee, ast.Attribute) and path(callee)) or not all(value(v) for v in e.args[1:]) or not all(value(k.value) for k in e.keywords):
+            return None
+        return callee, list(e.args[1:]), list(e.keywords)
+
+    def _partial_call(self, x):
+        """`partial(f, a, k=v)(b, ..)` -- directly, or through a single-assignment local that holds the partial object -- is `f(a, b, .., k=v)`;
+        None when x is not such a call (a keyword given twice would override the frozen one: not decoded)"""
+        f = x.func
+        if isinstance(f, ast.Name) and f.id in self.defs:
+            f = self.defs[f.id]
+        got = self._partial_of(f) if isinstance(f, ast.Call) else None
+        if got is None or any(isinstance(a, ast.Starred) for a in x.args) or any(k.arg is None for k in x.keywords):
+            return None
+        callee, pos, kws = got
+        if {k.arg for k in kws} & {k.arg for k in x.keywords}:
+            return None
+        self.changed = True
+        return ast.copy_location(ast.Call(func=copy.deepcopy(callee), args=[copy.deepcopy(v) for v in pos] + list(x.args),
+                                          keywords=[copy.deepcopy(k) for k in kws] + list(x.keywords)), x)
 
     def _replace_call(self, x):
         """`dataclasses.replace(obj, k=v, ..)` on an instance of the method's own dataclass: the constructor call of that class in which every field
